@@ -62,7 +62,7 @@ StringDictionaryPFC::StringDictionaryPFC(IteratorDictString *it,
 
   // Variables for strings management
   size_t reservedStrings = MEMALLOC * bucketsize;
-  textStrings = new uchar[reservedStrings];
+  textStrings = new uchar[reservedStrings]();
   std::vector<size_t> xblStrings;
 
   xblStrings.push_back(bytesStrings);
